@@ -148,6 +148,10 @@ def render(st, seed=0):
     ref_lines(d, "p", "  ")
     d.add("contains")
     d.add("  subroutine q()")
+    use_line_q = USE_TXT[q.get("use1", "none")]
+    if use_line_q:
+        cl = q["use1"]
+        d.add("    " + use_line_q % "m1", [(cl[-1], ("m1", cl[-1]), "only", 0)])
     for n in sorted(q["decl"]):
         d.add("    integer :: %s" % n, [(n, ("q", n), "decl", 0)])
     ref_lines(d, "q", "    ")
@@ -176,7 +180,9 @@ def universe_tags(st):
         f.add("feature:renameWithoutOnly")
     if st["m2"]["defpriv"] and st["m2"]["use1"] != "none":
         f.add("feature:defaultPrivateModuleUses")
-    if "onlylx" in (st["m2"]["use1"], st["p"]["use1"]) and st["p"]["use1"] != "none" and st["p"]["use2"] != "none" and st["m2"]["use1"] != "none":
+    second_path = (st["p"]["use1"] != "none" and st["p"]["use2"] != "none" and st["m2"]["use1"] != "none") or \
+                  (st["p"]["use1"] != "none" and st["q"].get("use1", "none") != "none")
+    if "onlylx" in (st["m2"]["use1"], st["p"]["use1"]) and second_path:
         f.add("feature:onlyRename+secondPathToSameModule")
     return f
 
@@ -188,7 +194,10 @@ def via(st, site, name, e):
     if e[0] == site:
         return "via:local"
     if site == "q":
-        return "via:host+" + via(st, "p", name, e)[4:]
+        qu = st["q"].get("use1", "none")
+        if e[0] == "m1" and ((qu == "onlyx" and name == "x") or (qu == "onlyy" and name == "y")):
+            return "via:ownUse(" + qu + ")"
+        return "via:host+" + via(st, "p", name, e)[4:] + ("+ownUse" if qu != "none" else "")
     if site == "m2":
         return "via:use(" + st["m2"]["use1"] + ")"
     # site p
